@@ -79,6 +79,7 @@ type TaskResult struct {
 	Wall         time.Duration
 	Samples      []Sample
 	MaxPC        int
+	Witnesses    []Violation
 }
 
 type Engine struct {
@@ -258,6 +259,12 @@ func (e *Engine) worker(id int, wg *sync.WaitGroup) {
 			if end.kind == "ok" {
 				for _, id := range w.pathReach {
 					e.res.Reached[id]++
+				}
+				if len(e.res.Witnesses) < 2 && len(w.pathReach) > 0 {
+					e.mu.Unlock()
+					wv := w.makeViolation("witness", "")
+					e.mu.Lock()
+					e.res.Witnesses = append(e.res.Witnesses, wv)
 				}
 			}
 		case "panic":
